@@ -48,7 +48,7 @@ func (s *Session) effectsOfCall(c *ssa.CallCommon, depth int) map[string]bool {
 	}
 	if con != nil {
 		for _, e := range con.Effects {
-			if !strings.HasPrefix(e, "owns ") && !strings.HasPrefix(e, "no ") && !strings.HasPrefix(e, "lock-held at ") {
+			if !strings.HasPrefix(e, "owns ") && !strings.HasPrefix(e, "no ") && !strings.HasPrefix(e, "lock-held at ") && e != "unlock-only-held" {
 				out[e] = true
 			}
 		}
@@ -103,6 +103,21 @@ func (s *Session) checkEffects() {
 			offenders := s.locksNotHeldAt(target, e)
 			name := s.obl("effect("+e+")", "")
 			vc := &VC{Obl: name, Kind: "effect", Fn: s.name, Goal: e}
+			if len(offenders) == 0 {
+				vc.Status, vc.Solver = "unsat", "trivial"
+			} else {
+				vc.SMT = "; __DECLS__\n(assert true)"
+				vc.Goal = fmt.Sprintf("%s — violated by: %s", e, strings.Join(offenders, "; "))
+			}
+			s.vcs = append(s.vcs, vc)
+			continue
+		}
+		if e == "unlock-only-held" {
+			// every Unlock / RUnlock of this function (deferred ones at the point of the defer) releases a
+			// mutex the function itself has locked on EVERY path to that point: unlocking a mutex that is not
+			// locked is a fatal error of the Go runtime ("sync: unlock of unlocked mutex"), not a panic
+			offenders := s.unlocksOfUnheld()
+			vc := &VC{Obl: s.obl("effect("+e+")", ""), Kind: "effect", Fn: s.name, Goal: e}
 			if len(offenders) == 0 {
 				vc.Status, vc.Solver = "unsat", "trivial"
 			} else {
@@ -562,5 +577,78 @@ func (s *Session) locksHeldAtReturn() []string {
 			}
 		}
 	})
+	return offenders
+}
+
+// unlocksOfUnheld: forward MUST-analysis of the mutexes this function has locked itself; reports every
+// release (direct, or deferred: checked where the defer statement is) of a mutex not in the set.
+func (s *Session) unlocksOfUnheld() []string {
+	type set map[string]bool
+	in := map[*ssa.BasicBlock]set{}
+	seenBlock := map[*ssa.BasicBlock]bool{}
+	var offenders []string
+	transfer := func(b *ssa.BasicBlock, held set, report bool) set {
+		out := set{}
+		for k := range held {
+			out[k] = true
+		}
+		for _, i := range b.Instrs {
+			switch c := i.(type) {
+			case *ssa.Call:
+				if k, acq, rel := lockOp(&c.Call); acq {
+					out[k] = true
+				} else if rel {
+					if report && !out[k] {
+						offenders = append(offenders, fmt.Sprintf("mutex %s is unlocked at %s but not locked by this function on every path to it", k, s.P.pos(i.Pos())))
+					}
+					delete(out, k)
+				}
+			case *ssa.Defer:
+				if k, _, rel := lockOp(&c.Call); rel {
+					if report && !out[k] {
+						offenders = append(offenders, fmt.Sprintf("deferred unlock of mutex %s at %s: not locked by this function on every path to the defer", k, s.P.pos(i.Pos())))
+					}
+				}
+			}
+		}
+		return out
+	}
+	if len(s.fn.Blocks) == 0 {
+		return nil
+	}
+	in[s.fn.Blocks[0]] = set{}
+	seenBlock[s.fn.Blocks[0]] = true
+	for changed := true; changed; {
+		changed = false
+		for _, b := range s.fn.Blocks {
+			if !seenBlock[b] {
+				continue
+			}
+			out := transfer(b, in[b], false)
+			for _, succ := range b.Succs {
+				if !seenBlock[succ] {
+					seenBlock[succ] = true
+					cp := set{}
+					for k := range out {
+						cp[k] = true
+					}
+					in[succ] = cp
+					changed = true
+					continue
+				}
+				for k := range in[succ] {
+					if !out[k] {
+						delete(in[succ], k)
+						changed = true
+					}
+				}
+			}
+		}
+	}
+	for _, b := range s.fn.Blocks {
+		if seenBlock[b] {
+			transfer(b, in[b], true)
+		}
+	}
 	return offenders
 }
